@@ -737,6 +737,71 @@ def divisor_obligations(F, reach):
 
 
 
+# wrapper path -> index of the argument that must be a finite float (or a Numeric that is not a non-finite Float)
+FINITE_OF = {
+    "<types::bigrat::BigRat as core::convert::From<f64>>::from": 0,   # NumRat::from_float(NaN | inf) is None -> unwrap
+    "types::numeric::Numeric::to_rational": 0,                         # its Float arm calls BigRat::from(x)
+}
+
+
+def finite_obligations(F, reach):
+    out = []
+    for fid in reach:
+        fn = F.fns[fid]
+        if fn.crate != CORE:
+            continue
+        for bb, t in fn.calls():
+            if "callee" in t and t["callee"]["path"] in FINITE_OF:
+                idx = FINITE_OF[t["callee"]["path"]]
+                out.append((fn, bb, t, t["callee"]["path"], fn.apath(t["args"][idx]), idx))
+    return out
+
+
+def _strip_float(ap):
+    """Access path of the Numeric a float payload was taken from: drop a trailing (`as Float`, `0`) and derefs."""
+    pr = tuple(x for x in ap[1] if x != "*")
+    if pr[-2:] == ("as Float", "0"):
+        pr = pr[:-2]
+    return (ap[0], pr)
+
+
+def decide_finite(F, fn, bb, t, wrapper, ap, idx):
+    """Is the float (or Numeric) handed to BigRat::from(f64) / Numeric::to_rational shown to be finite here?"""
+    import c03
+    # 1. the operand is this wrapper's own parameter (or its Float payload): pushed to its callers
+    if fn.path in FINITE_OF and _strip_float(ap)[0] == ("arg", FINITE_OF[fn.path] + 1) and not _strip_float(ap)[1]:
+        return ("D0", "the value is this wrapper's own parameter: precondition pushed to its callers")
+    want = c03.val_key(_strip_float(ap))
+
+    def same(x):
+        return c03.val_key(_strip_float(x)) == want
+
+    # 2. the strict magnitude test `|x| < c` (false for NaN and for the infinities) dominates the call
+    for g in fn.guards_of(bb):
+        d = fn.guard_desc(g)
+        if d[0] == "bool" and d[2] is True:
+            r = d[1][0]
+            if r[0] == "call" and r[1].endswith("::lt") and not d[1][1] and r[2] and r[2][0][0][0] == "call" and r[2][0][0][1].endswith("Numeric::abs") \
+                    and same(r[2][0][0][2][0]) and r[2][1][0][0] in ("call", "const"):
+                return ("D0", "behind the strict magnitude test `|x| < c`, which NaN and the infinities fail")
+
+    # 3. cut gate: with the edges `is_finite(x) == true`, `x is Rational`, and the finite classes of `x.classify()` removed,
+    #    the call must be unreachable
+    def acc(kind, gap, info):
+        r = gap[0]
+        if kind == "bool" and r[0] == "call" and r[1].endswith("f64>::is_finite") and not gap[1] and same(r[2][0]):
+            return {"true"}
+        if kind == "variant" and info.get("enum", "").endswith("types::numeric::Numeric") and same(gap):
+            return {"Rational"}
+        if kind == "variant" and info.get("enum", "").endswith("num::FpCategory") and r[0] == "call" and r[1].endswith("::classify") and same(r[2][0]):
+            return {"Zero", "Subnormal", "Normal"}
+        return None
+    res, matched = k2.cut_gate(fn, [bb], acc)
+    if matched and res[bb]:
+        return ("D0", "reachable only through `is_finite()`, a finite class of `classify()`, or the Rational variant of the same value")
+    return None
+
+
 _fz_cache = {}
 
 
@@ -936,6 +1001,35 @@ def run(chk, F, which):
         chk.finding("divisor-nonzero", fk, summary, fn.where(bb),
                     "%s is called with a divisor that is not shown to be non-zero (%s): division by zero panics inside num-rational/num-bigint" % (w.split("::")[-1], ap_str(ap)[:120]),
                     path=G.path_to(reach, fn.id))
+    # finite-float obligations (D0): BigRat::from(f64) unwraps NumRat::from_float, which is None for NaN and the infinities
+    fobs = finite_obligations(F, reach)
+    fobs.sort(key=lambda o: (o[0].path, o[3], o[1]))
+    fd = {}
+    for fn, bb, t, w, ap, idx in fobs:
+        k = (fn.path, w)
+        fd[k] = fd.get(k, 0) + 1
+        fk = "%s::%s" % (fn.crate, fn.path)
+        short = "from_f64" if "From<f64>" in w else w.split("::")[-1]
+        summary = "finite-arg-of:%s#%d" % (short, fd[k])
+        r = decide_finite(F, fn, bb, t, w, ap, idx)
+        if r:
+            chk.ok("float-finite", fk, summary, fn.where(bb), "%s: %s" % r)
+            continue
+        es = by_fn_what.get((normfn(fn.path), "finite:" + short), [])
+        e = next((c for c in es if used.get(id(c), 0) < c.get("n", 1)), None)
+        if e is not None:
+            used[id(e)] = used.get(id(e), 0) + 1
+            ok, why = backing_holds(F, Site(fn, bb, "call", "finite", t, False), e)
+            if ok:
+                chk.ok("float-finite", fk, summary, fn.where(bb), "D8 justified: %s%s" % (e["reason"], (" [checked: %s]" % why) if why else ""))
+                continue
+            chk.finding("float-finite", fk, summary, fn.where(bb), "the justification `%s` no longer holds: %s" % (e["reason"][:100], why))
+            continue
+        chk.finding("float-finite", fk, summary, fn.where(bb),
+                    "%s is called with a value that is not shown to be finite (%s): NaN or an infinity panics in BigRat::from(f64) "
+                    "(`ln(-1)` or `exp(1000)` rendered through this path)" % (short, ap_str(ap)[:120]), path=G.path_to(reach, fn.id))
+    if len(fobs) < 5:
+        chk.anchor_lost("float-finite", "rink_core", "only %d calls of BigRat::from(f64)/Numeric::to_rational found in the reachable set (expected >= 5)" % len(fobs))
     if n_site < 200:
         chk.anchor_lost("panic-site", "rink_core", "only %d panic-capable sites found in %d reachable functions (expected >= 200): the inventory is incomplete" % (n_site, len(reach)))
     # recursion: listed, not decided
@@ -982,6 +1076,53 @@ def _only_callers(allowed):
         bad = [c for c in callers if not any(c == a or c.startswith(a + "::{closure") for a in allowed)]
         return (not bad), ("callers: %s" % callers if not bad else "unexpected callers %s" % bad)
     return chk
+
+
+def _unit_name_constant_rational(F, s, e):
+    """Context::show(.., bottom_const, ..): the constant of a conversion target.  Every caller passes Numeric::one() or the
+    second component of eval_unit_name's result (directly, or through Substance::get_in_unit's parameter of the same name), and
+    eval_unit_name with its closures contains no float producer (no Numeric::Float aggregate, no callee over f64): it combines
+    Expr::Const payloads - which the lexer only builds as rationals, C01 literal-digits/no-float-fallback - with rational
+    arithmetic."""
+    G = cg.get(F)
+    eun = F.find(CORE, "runtime::eval::eval_unit_name")
+    for f in [eun] + list(F.closures_of(eun)):
+        for bb, t in f.calls():
+            if "callee" in t and ("f64" in t["callee"]["path"] or "Float" in t["callee"]["path"]):
+                return False, "eval_unit_name calls %s" % t["callee"]["path"]
+        for i, j, st in f.stmts():
+            rv = st.get("rv", {})
+            if rv.get("k") == "agg" and "Float" in str(rv.get("variant", "")):
+                return False, "eval_unit_name builds a Numeric::Float at %s" % f.where(i, j)
+
+    def arg_ok(c, a, depth=0):
+        txt = ap_str(c.apath(a))
+        if txt == "types::numeric::Numeric::one()" or "runtime::eval::eval_unit_name(" in txt:
+            return True
+        return False
+
+    def sites_of(target, idx, depth=0):
+        n = 0
+        for a, bs in G.edges.items():
+            if target.id not in bs:
+                continue
+            c = F.fns[a]
+            for bb, t in c.calls():
+                if "callee" in t and t["callee"]["path"] == target.path:
+                    n += 1
+                    if arg_ok(c, t["args"][idx]):
+                        continue
+                    base = c.path.split("::{closure")[0]
+                    if depth == 0 and base == "runtime::substance::Substance::get_in_unit":
+                        giu = F.find(CORE, "runtime::substance::Substance::get_in_unit")
+                        ok, why = sites_of(giu, 4, 1)
+                        if ok:
+                            continue
+                        return False, why
+                    return False, "%s passes %s" % (c.path, ap_str(c.apath(t["args"][idx]))[:80])
+        return (n > 0), ("%d call sites" % n if n else "no call site of %s found" % target.path)
+    ok, why = sites_of(s.fn, 4)
+    return ok, ("every bottom_const is Numeric::one() or eval_unit_name's constant, which has no float producer" if ok else why)
 
 
 def _prefixes_nonzero(F, s, e):
@@ -1432,6 +1573,7 @@ def _operands_reset_to_one(F, s, e):
 
 
 BACKING = {
+    "unit_name_constant_rational": _unit_name_constant_rational,
     "duration_list_six": _duration_list_six,
     "search_results_resolve": _search_results_resolve,
     "symbol_invariant": _symbol_invariant,
